@@ -254,8 +254,14 @@ fn observe_full<T: Loaded>(res: anyhow::Result<T>, expect_digest: u64, o: &mut O
 }
 
 /// Build the file for a case and return (path, file length, digest the loaded structure must have).
-fn make_file(dir: &std::path::Path, ty: &str, n: usize, cause: &str, cut: usize) -> (std::path::PathBuf, usize, u64) {
+fn make_file(dir: &std::path::Path, ty: &str, n: usize, cause: &str, cut: i64, prior: &str) -> (std::path::PathBuf, usize, u64) {
     let path = dir.join(format!("case_{}_{}.bin", ty, std::process::id()));
+    // what is at the path before store(): nothing, a shorter file, or a longer one (store must truncate)
+    match prior {
+        "shorter" => std::fs::write(&path, [0xABu8; 7]).unwrap(),
+        "longer" => std::fs::write(&path, vec![0xABu8; 1 << 16]).unwrap(),
+        _ => { let _ = std::fs::remove_file(&path); }
+    }
     let v64: Vec<u64> = (0..n as u64).map(|i| i.wrapping_mul(0x9E3779B97F4A7C15) ^ 0xA5).collect();
     let v8: Vec<u8> = (0..n).map(|i| (i * 7 + 3) as u8).collect();
     let name: String = "héllo🔥".chars().cycle().take(n % 11).collect();
@@ -291,7 +297,12 @@ fn make_file(dir: &std::path::Path, ty: &str, n: usize, cause: &str, cut: usize)
     let mut bytes = std::fs::read(&path).unwrap();
     match cause {
         "corrupt" => { bytes[3] ^= 0x40; std::fs::write(&path, &bytes).unwrap(); }
-        "trunc" => { bytes.truncate(cut.min(bytes.len())); std::fs::write(&path, &bytes).unwrap(); }
+        // cut >= 0: keep `cut` bytes; cut < 0: drop `-cut` bytes from the end (a cut inside the payload)
+        "trunc" => {
+            let keep = if cut >= 0 { (cut as usize).min(bytes.len()) } else { bytes.len().saturating_sub((-cut) as usize) };
+            bytes.truncate(keep);
+            std::fs::write(&path, &bytes).unwrap();
+        }
         "empty" => { bytes.clear(); std::fs::write(&path, &bytes).unwrap(); }
         "missing" => { std::fs::remove_file(&path).unwrap(); }
         _ => {}
@@ -317,11 +328,12 @@ pub fn run_case(case: &Value, dir: &std::path::Path) -> Value {
     let ty = case["ty"].as_str().unwrap();
     let n = case["n"].as_u64().unwrap_or(3) as usize;
     let cause = case["cause"].as_str().unwrap_or("valid");
-    let cut = case["cut"].as_u64().unwrap_or(0) as usize;
+    let cut = case["cut"].as_i64().unwrap_or(0);
+    let prior = case["prior"].as_str().unwrap_or("absent");
     let flags = case["flags"].as_u64().unwrap_or(0);
     let ops_owned: Vec<String> = case["ops"].as_array().map(|a| a.iter().map(|x| x.as_str().unwrap().to_string()).collect()).unwrap_or_default();
     let ops: Vec<&str> = ops_owned.iter().map(|s| s.as_str()).collect();
-    let (path, file_len, digest) = make_file(dir, ty, n, cause, cut);
+    let (path, file_len, digest) = make_file(dir, ty, n, cause, cut, prior);
     let mut store_exact = true;
     if cause == "valid" {
         // store() must have written exactly the serialized bytes
@@ -366,7 +378,15 @@ pub fn run_case(case: &Value, dir: &std::path::Path) -> Value {
             _ => { o.res = "unknown-type"; }
         }
     }));
-    let panicked = r.err().map(crate::panic_msg);
+    // a panic inside the loader (ε-copy bounds check on a truncated file) unwinds through it: drop the
+    // payload first, then measure what the failed load left behind
+    let did_panic = r.is_err();
+    drop(r);
+    if did_panic {
+        o.heap1 = live(); o.maps1 = nmaps() as i64;
+        o.heap2 = o.heap1; o.maps2 = o.maps1;
+    }
+    let panicked: Option<String> = if did_panic { Some("panic inside the loader".to_string()) } else { None };
     let canary_drops = CANARY_DROPS.load(SeqCst);
     let canary_valid = CANARY_SEEN.load(SeqCst) == (0..n as u64).map(|i| i.wrapping_mul(0x9E3779B97F4A7C15) ^ 0xA5).collect::<Vec<u64>>().peek();
     let _ = std::fs::remove_file(&path);
